@@ -162,6 +162,9 @@ func (t *Table) DecrRef() error {
 		if err := t.Delete(); err != nil {
 			return err
 		}
+		if !t.IsInmemory {
+			vevent(6, t.Fd.Name(), 0, 0) // verif: delete
+		}
 	}
 	return nil
 }
@@ -246,6 +249,7 @@ func CreateTable(fname string, builder *Builder) (*Table, error) {
 	bd := builder.Done()
 	mf, err := z.OpenMmapFile(fname, os.O_CREATE|os.O_RDWR|os.O_EXCL, bd.Size)
 	if err == z.NewFile {
+		vevent(1, fname, int64(bd.Size), 0) // verif: create
 		// Expected.
 	} else if err != nil {
 		return nil, y.Wrapf(err, "while creating table: %s", fname)
@@ -254,10 +258,12 @@ func CreateTable(fname string, builder *Builder) (*Table, error) {
 	}
 
 	written := bd.Copy(mf.Data)
+	vevent(2, fname, 0, int64(written)) // verif: write
 	y.AssertTrue(written == len(mf.Data))
 	if err := z.Msync(mf.Data); err != nil {
 		return nil, y.Wrapf(err, "while calling msync on %s", fname)
 	}
+	vevent(4, fname, 0, 0) // verif: sync
 	return OpenTable(mf, *builder.opts)
 }
 
